@@ -10,7 +10,7 @@ from . import common as c
 
 SUPPORT = ["Enc/Prims.v", "Enc/Ty.v", "Enc/Val.v", "Enc/IR.v", "Enc/Compile.v", "Enc/JsonLite.v", "Enc/MapSort.v",
            "Enc/VM.v", "Enc/Exec.v", "Enc/StdEnc.v", "Enc/CompileWf.v", "Enc/IntBridge.v",
-           "Enc/TyLemmas.v", "Enc/Sim.v", "Enc/Frag.v", "Enc/Steps.v", "Enc/EncProofs.v"]
+           "Enc/TyLemmas.v", "Enc/Sim.v", "Enc/Frag.v", "Enc/Steps.v", "Enc/EncProofs.v", "Enc/Total.v"]
 GENS = ["EncFlags"]
 
 VM_ENV = dict(c.GOENV)
